@@ -28,11 +28,22 @@ fn g_func(_t: CelValue, _a: Vec<CelValue>) -> CelValue {
     CelValue::String("function".into())
 }
 
+/// contexts in which a bare identifier `$` is resolved
+const IDENT_CTX: [&str; 8] = ["$", "[$][0]", "idf($)", "[1].map(q, $)[0]", "true ? $ : 0", "{'k': $}.k", "coalesce($, 9)", "f'{$}'"];
+
+fn idf_impl(_t: CelValue, a: Vec<CelValue>) -> CelValue {
+    a.into_iter().next().unwrap_or(CelValue::Null)
+}
+
 fn run_collision(idx: u64, acc: &mut Acc) {
     // idx -> (scenario, subset bits)
-    let d = unrank(idx, &[6, 8]);
+    let d = unrank(idx, &[6, 8, IDENT_CTX.len() as u64]);
     let scen = d[0];
     let bits = d[1];
+    let ictx = IDENT_CTX[d[2] as usize];
+    if scen >= 2 && d[2] != 0 {
+        return;
+    }
     let has = |i: u64| bits & (1 << i) != 0;
     let mut ctx = CelContext::new();
     let mut b = BindContext::new();
@@ -48,8 +59,14 @@ fn run_collision(idx: u64, acc: &mut Acc) {
             if has(2) {
                 return;
             }
+            b.bind_func("idf", &idf_impl);
             let w = if has(0) { Ok(V::Int(1)) } else if has(1) { Ok(V::Int(2)) } else { Err(()) };
-            ("v + 0".into(), w, format!("identifier v: variable={} program={}", has(0), has(1)))
+            let w = match (ictx, w) {
+                ("coalesce($, 9)", Err(())) => Ok(V::Int(9)),
+                ("f'{$}'", Ok(V::Int(n))) => Ok(V::Str(format!("{}", n))),
+                (_, w) => w,
+            };
+            (ictx.replace('$', "v"), w, format!("identifier v in `{}`: variable={} program={}", ictx, has(0), has(1)))
         }
         // identifier `int`: the built-in type name wins over a variable and a program of that name
         1 => {
@@ -62,7 +79,11 @@ fn run_collision(idx: u64, acc: &mut Acc) {
             if has(2) {
                 return;
             }
-            ("int == type(5)".into(), Ok(V::Bool(true)), format!("identifier int: variable={} program={}", has(0), has(1)))
+            b.bind_func("idf", &idf_impl);
+            if ictx == "f'{$}'" {
+                return; // string(type) is not fixed
+            }
+            (format!("({}) == type(5)", ictx.replace('$', "int")), Ok(V::Bool(true)), format!("identifier int in `{}`: variable={} program={}", ictx, has(0), has(1)))
         }
         // call position, name `g`: bound function wins over macro; neither -> failure
         2 => {
@@ -120,10 +141,17 @@ fn run_collision(idx: u64, acc: &mut Acc) {
         }
         // replacement: rebinding a variable / re-adding a program takes effect for later executions
         _ => {
+            // has(2): the first binding and the rebinding go through the JSON entry point
+            let json_bind = |b: &mut BindContext, val: i64| {
+                let mut o = serde_json::Map::new();
+                o.insert("v".to_string(), json!(val));
+                let _ = b.bind_params_from_json_obj(serde_json::Value::Object(o));
+            };
             if has(2) {
-                return;
+                json_bind(&mut b, 1);
+            } else {
+                b.bind_param("v", CelValue::Int(1));
             }
-            b.bind_param("v", CelValue::Int(1));
             ctx.add_program_str("p", "10").unwrap();
             ctx.add_program_str("main", "v + p").unwrap();
             let first = real::exec_in(&mut ctx, "main", &b);
@@ -133,7 +161,14 @@ fn run_collision(idx: u64, acc: &mut Acc) {
             }
             let mut want = 11;
             if has(0) {
-                b.bind_param("v", CelValue::Int(2));
+                // rebinding through the other entry point than the first binding, and through the same
+                if has(2) {
+                    b.bind_param("v", CelValue::Int(5));
+                    json_bind(&mut b, 2);
+                } else {
+                    json_bind(&mut b, 5);
+                    b.bind_param("v", CelValue::Int(2));
+                }
                 want += 1;
             }
             if has(1) {
@@ -146,7 +181,7 @@ fn run_collision(idx: u64, acc: &mut Acc) {
             acc.nontrivial(&idx);
             if !matches!(got.value(), Some(V::Int(x)) if x == want) {
                 acc.violation(
-                    &format!("replacement rebind={} readd={} old-value-still-used", has(0), has(1)),
+                    &format!("replacement rebind={} readd={} json-first={} old-value-still-used", has(0), has(1), has(2)),
                     json!({"src": "v + p", "rebound_v_to_2": has(0), "readded_p_as_20": has(1)}),
                     format!("{}", want),
                     got.show(),
@@ -760,7 +795,7 @@ pub fn replay_families(t: Tier) -> Vec<Family<'static>> {
     let g4: &'static Graphs = Box::leak(Box::new(g4));
     let j: &'static Jsons = Box::leak(Box::new(Jsons { vals: json_values() }));
     vec![
-        Family::new("collisions", 6 * 8, run_collision),
+        Family::new("collisions", 6 * 8 * IDENT_CTX.len() as u64, run_collision),
         Family::new("acyclic-graphs", g.size(), move |i, a| g.run(i, a)),
         Family::new("acyclic-graphs-b", g4.size(), move |i, a| g4.run(i, a)),
         Family::new("json", j.vals.len() as u64, move |i, a| j.run(i, a)),
@@ -776,12 +811,12 @@ pub fn run(t: Tier) -> i32 {
     let (g, g4) = graph_sets(t);
     let j = Jsons { vals: json_values() };
     rep.rule = format!(
-        "collisions: every subset of {{variable, stored program}} behind identifiers v and int (a type name), of {{bound function, macro}} in call position for g and int (a type constructor), field vs method for m.g and m.g(), and rebinding/re-adding; graphs: ALL {} reference graphs on {} named programs (quick: 3 programs x the 9 core constructs plus 2 programs x all 18; thorough: 3 x 18 plus 4 x 9) with out-degree <= 1 where every edge goes through one of 18 referencing constructs (bare identifier, arithmetic operand, call argument, has, coalesce, f-string, ?: branch, and every macro site: map body over a list and over a map, map range, map/3, filter over a list and over a map, all, exists, exists_one, reduce step and seed): acyclic from p0 -> value by substitution (in-process), a cycle reachable from p0 -> an error, each run in child processes in two build profiles on an 8 MiB main stack and a 2 MiB thread stack: never an abort; chains: length 1..64 through each of the 18 constructs, without a loop and with a 1-element and a 64-element macro loop inside the middle link, same child set-up: correct value up to 16 links (bare, arithmetic) / 4 links (others), value or error beyond, never an abort, 64 iterations give the same outcome class as one; json: {} JSON values of depth <= 2 over 9 atoms bound from JSON vs bound directly (structural equality, ==, inside a list, type). Non-trivial = every case",
+        "collisions: every subset of {{variable, stored program}} behind identifiers v and int (a type name) in 8 contexts (bare, list element, function argument, macro body, ?: branch, map value, coalesce, f-string), of {{bound function, macro}} in call position for g and int (a type constructor), field vs method for m.g and m.g(), and rebinding/re-adding through bind_param and through the JSON entry point in both orders; graphs: ALL {} reference graphs on {} named programs (quick: 3 programs x the 9 core constructs plus 2 programs x all 18; thorough: 3 x 18 plus 4 x 9) with out-degree <= 1 where every edge goes through one of 18 referencing constructs (bare identifier, arithmetic operand, call argument, has, coalesce, f-string, ?: branch, and every macro site: map body over a list and over a map, map range, map/3, filter over a list and over a map, all, exists, exists_one, reduce step and seed): acyclic from p0 -> value by substitution (in-process), a cycle reachable from p0 -> an error, each run in child processes in two build profiles on an 8 MiB main stack and a 2 MiB thread stack: never an abort; chains: length 1..64 through each of the 18 constructs, without a loop and with a 1-element and a 64-element macro loop inside the middle link, same child set-up: correct value up to 16 links (bare, arithmetic) / 4 links (others), value or error beyond, never an abort, 64 iterations give the same outcome class as one; json: {} JSON values of depth <= 2 over 9 atoms bound from JSON vs bound directly (structural equality, ==, inside a list, type). Non-trivial = every case",
         g.size() + g4.size(),
         format!("{} resp. {}", g.n, g4.n),
         j.vals.len()
     );
-    rep.run_family(Family::new("collisions", 6 * 8, run_collision));
+    rep.run_family(Family::new("collisions", 6 * 8 * IDENT_CTX.len() as u64, run_collision));
     rep.run_family(Family::new("acyclic-graphs", g.size(), |i, a| g.run(i, a)));
     run_cyclic_graphs(&g, &mut rep);
     let mut total_graphs = g.size();
